@@ -318,7 +318,7 @@ class Candidate:  # pylint: disable=too-many-instance-attributes
         # Sort based on tags to make sure the most specific distributions
         # are matched first
         self._sortkey: Optional[
-            Tuple[packaging.version.Version, str, int, Tuple[int, int, int, int]]
+            Tuple[packaging.version.Version, str, int, Tuple[int, int, int, int], str]
         ] = None
         self.extra_sort_info = extra_sort_info
 
@@ -330,13 +330,16 @@ class Candidate:  # pylint: disable=too-many-instance-attributes
     @property
     def sortkey(
         self,
-    ) -> Tuple[packaging.version.Version, str, int, Tuple[int, int, int, int]]:
+    ) -> Tuple[packaging.version.Version, str, int, Tuple[int, int, int, int], str]:
         if self._sortkey is None:
             self._sortkey = (
                 self.version,
                 self.extra_sort_info,
                 self.type.value,
                 self.tag_score,
+                # Break remaining ties (e.g. "abi3" vs "none" wheels) on the file
+                # name so the order does not depend on how candidates were listed.
+                self.filename or "",
             )
         return self._sortkey
 
